@@ -99,6 +99,20 @@ def generic_event(darsia, rng, dim, tid):
             "angles6": [int(round(1e6 * a)) for a in angles]}
 
 
+def rotcorr_event(darsia, rng, dim, tid):
+    """RotationCorrection built from basic rotations: its stored rotation and inverse rotation are orthonormal with determinant
+    one and inverse to each other, for any number of basic rotations about the Cartesian axes (3-D) / one angle (2-D)."""
+    if dim == 2:
+        rots = [rng.uniform(-math.pi, math.pi)]
+    else:
+        rots = [(rng.uniform(-math.pi, math.pi), rng.choice("xyz")) for _ in range(rng.randint(1, 3))]
+    rc = darsia.RotationCorrection(anchor=[rng.randint(0, 3) for _ in range(dim)], rotations=rots)
+    R, Ri = np.asarray(rc.rotation, dtype=float), np.asarray(rc.rotation_inv, dtype=float)
+    return {"tid": tid, "op": "affine_generic", "dim": dim, "rtexp": exponent(float(np.abs(Ri @ R - np.eye(dim)).max())), "rt2exp": exponent(float(np.abs(R @ Ri - np.eye(dim)).max())),
+            "orthoexp": exponent(float(np.abs(R @ R.T - np.eye(dim)).max())), "detexp": exponent(abs(float(np.linalg.det(R)) - 1)),
+            "angles6": [int(round(1e6 * (r if dim == 2 else r[0]))) for r in rots], "cls": "RotationCorrection"}
+
+
 def rot_matrix(dim, ks):
     """Integer rotation matrix as AffineTransformation composes it (Rx Ry Rz); 2-D: Rot(k)."""
     def c(k): return [1, 0, -1, 0][k % 4]
@@ -237,6 +251,8 @@ def run(ck, replay=None):
         for i in range(2 if quick else 20):
             for dim in (2, 3):
                 events += fit_events(darsia, rng, dim, f"fit{dim}:{i}")
+        for i in range(10 if quick else 100):
+            events.append(rotcorr_event(darsia, rng, rng.choice([2, 3, 3]), f"rotcorr:{i}"))
         # warps: identity, whole-voxel shifts (also larger than the image), quarter turns; three typings
         nw = 60 if quick else 1500
         for i in range(nw):
